@@ -297,6 +297,7 @@ Definition new_proposal (P : params) (id now proposer : Z) (ms : list msg) (expe
 Definition submit (P : params) (kf : keyfun) (now : Z) (s : state) (proposer : Z) (ms : list msg)
            (amt : Z) (expedited valid bad_denom : bool) : result * state :=
   if negb (check_msgs ms) then (RErr EMixed, s)
+  else if amt <? 0 then (RErr EInvalid, s)
   else if negb (initial_ok P expedited amt) then (RErr EDepositSmall, s)
   else if bad_denom then (RErr EDenom, s)
   else if negb valid then (RErr EInvalid, s)
